@@ -1,12 +1,17 @@
 package rules
 
 import (
+	"encoding/json"
 	"fmt"
 	"go/ast"
 	"go/constant"
 	"go/token"
 	"go/types"
+	"math"
+	"os"
+	"path/filepath"
 	"regexp"
+	"strconv"
 	"strings"
 
 	"golang.org/x/tools/go/ssa"
@@ -1962,4 +1967,169 @@ func noRecoverInModule(c *core.Ctx, R string) {
 		}
 	}
 	c.Check(R, "no-recover-in-module", token.NoPos, bad == "" && n > 50, fmt.Sprintf("%d module functions, none calls recover()", n), "a recover() can swallow the panic that reports a rejected vertex or a pixel address that cannot be encoded: "+bad)
+}
+
+func init() {
+	reg("R33", r33CreateDeclaresSourceColumns)
+}
+
+// r33CreateDeclaresSourceColumns: the target table's columns are the source's: in createSQL the text appended for a
+// column is put together from constants and that column's own `name` and `ctype` fields, nothing else (the
+// geometry column included: its declared type is the one the source table declared, whatever geometry type the
+// catalogue registers).  String concatenation tree of the appended element, through the `+=` phis.
+func r33CreateDeclaresSourceColumns(c *core.Ctx) {
+	const R = "R33"
+	f := c.Anchor(R, "gpkg.Table.createSQL")
+	if f == nil || f.SSA == nil {
+		return
+	}
+	construct := "create-declares-each-column-as-in-source/" + f.Name
+	fn := f.SSA
+	n, bad := 0, ""
+	fieldsSeen := map[string]bool{}
+	var leaves func(v ssa.Value, seen map[ssa.Value]bool)
+	leaves = func(v ssa.Value, seen map[ssa.Value]bool) {
+		v = resolveValue(v)
+		if seen[v] {
+			return
+		}
+		seen[v] = true
+		switch x := v.(type) {
+		case *ssa.Const:
+			return
+		case *ssa.Phi:
+			for _, e := range x.Edges {
+				leaves(e, seen)
+			}
+			return
+		case *ssa.BinOp:
+			if x.Op == token.ADD {
+				leaves(x.X, seen)
+				leaves(x.Y, seen)
+				return
+			}
+		case *ssa.Field:
+			if st, ok := x.X.Type().Underlying().(*types.Struct); ok && core.TypeShort(x.X.Type()) == "gpkg.column" {
+				fieldsSeen[st.Field(x.Field).Name()] = true
+				if sliceElemLoad(resolveValue(x.X)) != nil || true {
+					return
+				}
+			}
+		case *ssa.UnOp:
+			if fa, ok := x.X.(*ssa.FieldAddr); ok && x.Op == token.MUL {
+				if st, ok := core.DerefStruct(fa.X.Type()); ok && core.TypeShort(fa.X.Type()) == "gpkg.column" {
+					fieldsSeen[st.Field(fa.Field).Name()] = true
+					return
+				}
+			}
+		}
+		bad += fmt.Sprintf("%s (%s); ", strings.TrimSpace(v.String()), c.P.Pos(v.Pos()))
+	}
+	for _, b := range fn.Blocks {
+		for _, in := range b.Instrs {
+			call, ok := in.(*ssa.Call)
+			if !ok {
+				continue
+			}
+			if _, isApp := isBuiltinCall(call, "append"); !isApp || len(call.Call.Args) != 2 {
+				continue
+			}
+			if sl, ok := call.Type().Underlying().(*types.Slice); !ok || !isStringType(sl.Elem()) {
+				continue
+			}
+			for _, e := range sliceLitElems(call.Call.Args[1]) {
+				n++
+				leaves(e, map[ssa.Value]bool{})
+			}
+		}
+	}
+	okc := n == 1 && bad == "" && fieldsSeen["name"] && fieldsSeen["ctype"]
+	for k := range fieldsSeen {
+		if k != "name" && k != "ctype" {
+			okc = false
+			bad += "field " + k + " is written into the declaration; "
+		}
+	}
+	c.Check(R, construct, f.Decl.Pos(), okc, "each column is declared as `name ctype [NOT NULL] [PRIMARY KEY]` from its own description", "a column of the target table is not declared with the source column's own name and type: "+bad)
+}
+
+func isStringType(t types.Type) bool {
+	b, ok := t.Underlying().(*types.Basic)
+	return ok && b.Kind() == types.String
+}
+
+func init() {
+	reg("R09", r09BuiltinCellSizesHalve)
+}
+
+// r09BuiltinCellSizesHalve: the index derives every pixel size from matrix 0 (root span / 2^level), so "the pixel
+// size used for tile matrix z is its cell size / 16" holds exactly when cellSize(z) = cellSize(0) / 2^z.  IsQuadTree
+// accepts a ratio between 1.99 and 2.01, which a mistyped digit passes.  For every embedded document that has the
+// structure of a quadtree (ids 0..n, square matrices of 2^z tiles, no variable widths) the declared cell sizes are
+// therefore read from the source tree and compared: relative deviation from cellSize(0)/2^z at most 1e-6 (the
+// shipped documents stay below 3e-8).
+func r09BuiltinCellSizesHalve(c *core.Ctx) {
+	const R = "R09"
+	files, _ := filepath.Glob(filepath.Join(c.P.RepoDir, "tms20", "tilematrixsets", "*.json"))
+	checked := 0
+	for _, fn := range files {
+		name := strings.TrimSuffix(filepath.Base(fn), ".json")
+		construct := "builtin-cell-sizes-halve/" + name
+		b, err := os.ReadFile(fn)
+		if err != nil {
+			c.Bad(R, construct, token.NoPos, err.Error())
+			continue
+		}
+		var doc struct {
+			TileMatrices []struct {
+				ID                   string          `json:"id"`
+				CellSize             float64         `json:"cellSize"`
+				MatrixWidth          int64           `json:"matrixWidth"`
+				MatrixHeight         int64           `json:"matrixHeight"`
+				VariableMatrixWidths json.RawMessage `json:"variableMatrixWidths"`
+			} `json:"tileMatrices"`
+		}
+		if err := json.Unmarshal(b, &doc); err != nil {
+			c.Bad(R, construct, token.NoPos, "document does not parse: "+err.Error())
+			continue
+		}
+		byID := map[int64]int{}
+		structural := len(doc.TileMatrices) > 0
+		for i, m := range doc.TileMatrices {
+			id, err := strconv.ParseInt(m.ID, 10, 64)
+			if err != nil || id < 0 || id > 62 {
+				structural = false
+				break
+			}
+			byID[id] = i
+			if m.MatrixWidth != m.MatrixHeight || m.MatrixWidth != int64(1)<<uint(id) || len(m.VariableMatrixWidths) > 0 {
+				structural = false
+			}
+		}
+		if structural {
+			for id := int64(0); id < int64(len(doc.TileMatrices)); id++ {
+				if _, ok := byID[id]; !ok {
+					structural = false
+				}
+			}
+		}
+		if !structural {
+			continue // not a quadtree by its shape: IsQuadTree's own conditions (R38) turn it down
+		}
+		checked++
+		c0 := doc.TileMatrices[byID[0]].CellSize
+		worst, at := 0.0, int64(0)
+		for id := int64(0); id < int64(len(doc.TileMatrices)); id++ {
+			want := c0 / float64(int64(1)<<uint(id))
+			dev := math.Abs(doc.TileMatrices[byID[id]].CellSize/want - 1)
+			if dev > worst {
+				worst, at = dev, id
+			}
+		}
+		c.Check(R, construct, token.NoPos, worst <= 1e-6, fmt.Sprintf("%d matrices, cell size halves per level (largest relative deviation %.2g)", len(doc.TileMatrices), worst),
+			fmt.Sprintf("tile matrix %d declares a cell size that is %.3g (relative) off cellSize(0)/2^%d: the set still passes IsQuadTree's 1%% tolerance, but the index takes every pixel size from matrix 0, so coordinates of that matrix are no longer on its own grid", at, worst, at))
+	}
+	if checked < 7 {
+		c.Bad(R, "builtin-cell-sizes-halve/inventory", token.NoPos, fmt.Sprintf("%d embedded documents have the shape of a quadtree, 7 confirmed by hand", checked))
+	}
 }
